@@ -459,7 +459,9 @@ fn run_case(s: &mut Session, c: &Case, child: bool) -> String {
             let ok = r.panic.is_none();
             if let Some((call, m)) = &r.panic {
                 // narrow class: which configuration, which kind of panic
-                let cfg = if want_ticks.len() < 2 {
+                let cfg = if st.tab > isize::MAX as usize && m.contains("capacity overflow") {
+                    "tab-width-huge".to_string()
+                } else if want_ticks.len() < 2 {
                     "ticks-lt2".to_string()
                 } else if let Some((_, rj)) = first_reject {
                     rj.to_string()
@@ -468,7 +470,12 @@ fn run_case(s: &mut Session, c: &Case, child: bool) -> String {
                 } else {
                     panic_kind(m).to_string()
                 };
-                s.fail(&format!("draw-panic-{cfg}"), format!("{call} panicked on a built style: {m} [{} tw={tw} th={th}]", st.show()), desc.clone());
+                if cfg == "tab-width-huge" && !REPORT_TAB_FINDING {
+                    // candidate finding (docs/C14.md, theorem C14_huge_tab_refuted): recorded, not yet reported
+                    s.count("unregistered-finding:draw-panic-tab-width-huge");
+                } else {
+                    s.fail(&format!("draw-panic-{cfg}"), format!("{call} panicked on a built style: {m} [{} tw={tw} th={th}]", st.show()), desc.clone());
+                }
             }
             if let Some(line) = &r.bad_width {
                 s.fail("width-exceeds-bytes", format!("measure_text_width > len for drawn line {:?}", esc(line)), desc.clone());
@@ -479,15 +486,18 @@ fn run_case(s: &mut Session, c: &Case, child: bool) -> String {
                 }
             }
             probes.push(format!(
-                "({}, {}, {}, {}, ({}, {}), ({}, {}), {}, {}, {})",
+                "({}, {}, {}, {}, ({}, {}, {}), ({}, {}, {}), {}, {}, {}, {})",
                 st.pos,
                 copt(st.len.map(|x| x.to_string())),
                 st.ticks,
                 cbool(st.fin != 0),
                 st.msg.len(),
                 console::measure_text_width(&st.msg),
+                cbool(st.msg.contains('\t')),
                 st.prefix.len(),
                 console::measure_text_width(&st.prefix),
+                cbool(st.prefix.contains('\t')),
+                st.tab,
                 tw,
                 th,
                 cbool(ok)
@@ -558,6 +568,11 @@ const TEXTS: &[&str] = &[
     "\u{ff21}\u{ff22}\u{ff23}\u{ff24}\u{ff25}\u{ff26}\u{ff27}\u{ff28}", "\u{2764}\u{fe0f}\u{2764}\u{fe0f}", "trailing   ", "\r\n",
 ];
 const TERM_WIDTHS: [u16; 7] = [0, 1, 2, 3, 10, 80, 65535];
+/// `ProgressBar::with_tab_width(n)` with n > isize::MAX panics in the draw (capacity overflow in
+/// `" ".repeat(tab_width)`) when the template has a with_key key or a drawn text has a tab: theorem
+/// C14_huge_tab_refuted, reproduced by the corpus below.  Until that class is registered as a
+/// known finding (known_findings.json is not this property's file) the oracle only counts it.
+const REPORT_TAB_FINDING: bool = true;
 
 fn gen_clusters(r: &mut Rng, n: usize, kind: u64) -> Vec<String> {
     (0..n)
@@ -666,7 +681,7 @@ fn gen_state(r: &mut Rng) -> St {
         msg: r.pick(TEXTS).to_string(),
         prefix: r.pick(TEXTS).to_string(),
         step_ns: *r.pick(&[0u64, 0, 1_000, 1_000_000, 1_000_000_000, 1_000_000_000_000_000]),
-        tab: *r.pick(&[8usize, 8, 0, 1, 4, 13]),
+        tab: *r.pick(&[8usize, 8, 0, 1, 4, 13, 1000]),
     }
 }
 
@@ -789,7 +804,37 @@ fn corpus(r: &mut Rng) -> Vec<Case> {
             let tick_idx = tick_indices(r, &ops);
             Case { ctor, ops, states, tick_idx }
         })
+        .chain(huge_tab_cases())
         .collect()
+}
+
+/// tab widths above isize::MAX (the refuted clause) and just below a sane bound
+fn huge_tab_cases() -> Vec<Case> {
+    let s = |x: &str| x.to_string();
+    let mk = |tpl: &str, ops: Vec<Op>, msg: &str, prefix: &str, tabs: &[usize]| Case {
+        ctor: Ctor::WithTemplate(tpl.to_string()),
+        ops,
+        states: tabs
+            .iter()
+            .flat_map(|tab| {
+                [(80u16, 24u16), (0, 24)].into_iter().map(move |(tw, th)| {
+                    (St { pos: 1, len: Some(3), ticks: 2, fin: 0, msg: msg.to_string(), prefix: prefix.to_string(), step_ns: 1000, tab: *tab }, tw, th)
+                })
+            })
+            .collect(),
+        tick_idx: vec![0, u64::MAX],
+    };
+    let tabs = [usize::MAX, (isize::MAX as usize) + 1, 4096, 0];
+    vec![
+        mk("{ck}", vec![Op::WithKey(s("ck"), s("x"))], "m", "", &tabs),
+        mk("{ck}", vec![Op::WithKey(s("ck"), s(""))], "m", "", &tabs),
+        mk("{msg}", vec![], "a\tb", "", &tabs),
+        mk("{msg} {pos}", vec![], "ab", "p", &tabs),
+        mk("{prefix:5}", vec![], "ab", "\t", &tabs),
+        mk("x{wide_msg}", vec![], "\t", "", &tabs),
+        mk("a\tb {pos}", vec![], "", "", &tabs),
+        mk("{bar} {spinner}", vec![Op::WithKey(s("unused"), s("x"))], "a\tb", "\t", &tabs),
+    ]
 }
 
 // ------------------------------------------------------------------ release twin
@@ -848,7 +893,13 @@ fn release_twin(a: &Args, s: &mut Session, outcomes: &[String], descs: &[String]
         for l in f.lines() {
             let p: Vec<&str> = l.splitn(3, '\t').collect();
             if p.len() == 3 {
-                s.fail(&format!("release-{}", p[0]), p[1].to_string(), p[2].to_string());
+                // the same defect seen in the release twin keeps its class name (known findings are
+                // matched by class); everything else is marked as release-only
+                if p[0] == "draw-panic-tab-width-huge" {
+                    s.fail(p[0], format!("(release build) {}", p[1]), p[2].to_string());
+                } else {
+                    s.fail(&format!("release-{}", p[0]), p[1].to_string(), p[2].to_string());
+                }
             }
         }
     }
@@ -871,7 +922,7 @@ fn main() {
     s.rule = "chains constructor(.tick_chars|.tick_strings|.progress_chars|.template|.with_key)* with 0,1,2,3,10 (and more) tick strings / progress clusters of width 0/1/2/mixed (combining marks, ZWJ emoji, flags, CJK, zero-width), templates from the documented grammar (every key, widths 0..65536+, alignment, truncation, styles, wide elements) and junk; every built style drawn on a recording terminal for states (pos/len at 0, 1, len-1, len, len+1, 2^32, 2^64-1, None; finished or not; 19 message/prefix texts; 6 clock regimes) x widths {0,1,2,3,10,80,65535} x heights, and get_tick_str probed at 0,1,n-2,n-1,n,2^32,2^64-2,2^64-1; non-trivial = at least one builder call or a with_template constructor; distinct = distinct case text".into();
     let mut r = Rng::new(a.seed);
     let mut cases = corpus(&mut r);
-    let (n, per_width) = if a.thorough { (6000, 2) } else if a.extended { (4000, 1) } else { (700, 1) };
+    let (n, per_width) = if a.thorough { (6000, 2) } else if a.extended { (3000, 1) } else { (700, 1) };
     for _ in 0..n {
         cases.push(gen_case(&mut r, per_width));
     }
